@@ -57,6 +57,16 @@ def grid(ctx, per_problem=None):
     for pol in ("fifo", "lifo"):
         out.append({"kind": "de_moor", "params": {"max_demand": 7, "demand_gamma_mean": 2.5, "demand_gamma_cov": 0.5, "max_useful_life": 3, "lead_time": 2, "max_order_quantity": 2,
                                                   "variable_order_cost": 3.0, "shortage_cost": 5.0, "wastage_cost": 7.0, "holding_cost": 1.0, "issue_policy": pol}})
+    # demand limit BELOW the order limit (event space sized by the order limit, not by the demand limit) and three age classes for
+    # the two-product problem (issuing carries demand across more than one older class)
+    out.append({"kind": "mirjalili", "params": {"max_demand": 1, "max_useful_life": 2, "max_order_quantity": 3, "weekday_demand_negbin_n": [3.5] * 7, "weekday_demand_negbin_delta": [5.7] * 7,
+                                                "useful_life_at_arrival_distribution_c_0": [0.5], "useful_life_at_arrival_distribution_c_1": [0.25],
+                                                "variable_order_cost": 1.0, "fixed_order_cost": 10.0, "shortage_cost": 20.0, "wastage_cost": 5.0, "holding_cost": 0.5}})
+    out.append({"kind": "mirjalili", "params": {"max_demand": 2, "max_useful_life": 3, "max_order_quantity": 3, "weekday_demand_negbin_n": [2.2] * 7, "weekday_demand_negbin_delta": [3.3] * 7,
+                                                "useful_life_at_arrival_distribution_c_0": [1.0, 0.5], "useful_life_at_arrival_distribution_c_1": [0.0, 0.25],
+                                                "variable_order_cost": 0.25, "fixed_order_cost": 3.0, "shortage_cost": 7.0, "wastage_cost": 2.0, "holding_cost": 1.0}})
+    out.append({"kind": "hendrix", "params": {"max_useful_life": 3, "max_order_quantity_a": 1, "max_order_quantity_b": 2, "demand_poisson_mean_a": 0.5, "demand_poisson_mean_b": 2.0,
+                                              "substitution_probability": 0.5, "variable_order_cost_a": 0.5, "variable_order_cost_b": 0.25, "sales_price_a": 1.0, "sales_price_b": 2.0}})
     # long order pipelines (lead time 3 and 4: newest and oldest in-transit orders are different entries)
     for L, m in ((3, 2), (4, 1)):
         out.append({"kind": "de_moor", "params": {"max_demand": 5, "demand_gamma_mean": 2.5, "demand_gamma_cov": 0.5, "max_useful_life": m, "lead_time": L, "max_order_quantity": 2,
